@@ -20,8 +20,11 @@ DELIMS = ('(', ')', '<', '>', '[', ']', '{', '}', '\\{', '\\}', '.', '|', '\\lan
           '\\rfloor', '\\lceil', '\\rceil', '\\ulcorner', '\\urcorner', '\\lbrack', '\\rbrack')
 ZERO_OPS = ('cup', 'cap', 'in', 'notin', 'infty')
 
-CMD_NAMES = ('x', 'y', 'foo', 'bar', 'emph', 'textit', 'ref', 'cite', 'alpha', 'vspace*', 'x*', 'Q')
-MATH_CMD_NAMES = ('frac', 'sqrt', 'sum', 'alpha', 'beta', 'mathbf', 'x', 'hat', 'lim')
+CMD_NAMES = ('x', 'y', 'foo', 'bar', 'emph', 'textit', 'ref', 'cite', 'alpha', 'vspace*', 'x*', 'Q',
+             # names that merely start like a special name must stay ordinary commands
+             'itemsep', 'endnote', 'begingroup', 'lefteqn', 'biggl', 'inf', 'defn', 'labels', 'sectionmark')
+MATH_CMD_NAMES = ('frac', 'sqrt', 'sum', 'alpha', 'beta', 'mathbf', 'x', 'hat', 'lim', 'leftarrow', 'rightarrow',
+                  'biggl', 'lefteqn', 'inf', 'Biggr')
 ENV_NAMES = ('e', 'f', 'center', 'quote', 'tabular', 'thm', 'figure*', 'doc')
 INNER_MATH_ENVS = ('split', 'cases', 'array', 'aligned')
 
@@ -431,6 +434,14 @@ class Gen:
     def args_generic(self, ctx, depth, maxopt=2, maxreq=3):
         nopt = self.int(0, maxopt) if self.chance(0.35) else 0
         nreq = self.int(0, maxreq)
+        if self.chance(0.03):
+            # rarely a long run: LaTeX's nine-argument folklore must not leak into the parser
+            if self.chance(0.5):
+                nreq = self.int(8, 12)
+            else:
+                nopt = self.int(8, 11)
+            self.count('long-argument-run')
+            depth = 0
         args = []
         for _ in range(nopt):
             args.append(Arg('[', self.body(ctx.derive(bracket=True, hostile_ok=False), depth - 1, small=True)))
